@@ -63,6 +63,7 @@ def run(ck: Checker, prog: Program, tier: str):
     ck.guard(_read_single, ck, prog)
     ck.guard(_obspy_wrapper, ck, prog)
     ck.guard(_per_file_state, ck, prog)
+    ck.guard(_one_trace_per_file, ck, prog)
     ck.guard(_read, ck, prog)
     ck.guard(_regex, ck, prog)
 
@@ -896,7 +897,32 @@ def _peer(ck: Checker, prog: Program):
         ck.violation("C07.R1", q, "role literals", f"the literals that decide the component roles are incomplete: missing {sorted(map(str, need - consts))}{'' if zed else ' and z'}", loc=f.loc())
     # the argmin / argmax of |relative azimuth| choose north / east
     calls = {call_name(x) for x in fam if isinstance(x, ast.Call)}
-    if {"argmin", "argmax"} <= calls:
+    # by value where the selection is written as index = argmin / argmax(<something>): the something is |relative azimuth|, the same
+    # vector for both, north takes the argmin and east the argmax
+    sel = {}
+    for st in fam:
+        if isinstance(st, ast.Assign) and len(st.targets) == 1 and isinstance(st.targets[0], ast.Name) and isinstance(st.value, ast.Call) \
+                and call_name(st.value) in ("argmin", "argmax") and st.value.args:
+            a0 = st.value.args[0]
+            inner = a0.args[0] if isinstance(a0, ast.Call) and call_name(a0) in ("abs", "absolute", "fabs") and len(a0.args) == 1 else None
+            sel[st.targets[0].id] = (call_name(st.value), unparse(inner) if inner is not None else None, st)
+    picks = {}
+    for st in fam:
+        if isinstance(st, ast.Assign) and len(st.targets) == 1 and isinstance(st.targets[0], ast.Name) and st.targets[0].id in ("ns", "ew") \
+                and isinstance(st.value, ast.Subscript) and isinstance(st.value.slice, ast.Name) and st.value.slice.id in sel:
+            picks[st.targets[0].id] = sel[st.value.slice.id]
+    sel_bad = None
+    if set(picks) == {"ns", "ew"}:
+        if picks["ns"][0] != "argmin" or picks["ew"][0] != "argmax":
+            sel_bad = f"north is taken at the {picks['ns'][0]} and east at the {picks['ew'][0]}"
+        elif picks["ns"][1] is None or picks["ew"][1] is None:
+            w = "ns" if picks["ns"][1] is None else "ew"
+            sel_bad = f"`{norm_key(picks[w][2], 70)}` does not take the absolute value of the relative azimuth: a component coded beyond 180 degrees (folded to a negative angle) is mistaken for the other horizontal"
+        elif picks["ns"][1] != picks["ew"][1]:
+            sel_bad = f"north and east are chosen from different vectors ({picks['ns'][1]} / {picks['ew'][1]})"
+    if sel_bad:
+        ck.violation("C07.R1", q, "numeric azimuth roles", f"numeric component codes: {sel_bad}", loc=f.loc(picks["ns"][2]))
+    elif {"argmin", "argmax"} <= calls:
         ck.ok("C07.R1", q, "north = smallest, east = largest |relative azimuth|", nontrivial=False)
     else:
         ck.violation("C07.R1", q, "numeric azimuth roles", "numeric component codes are not resolved by argmin / argmax of the relative azimuth", loc=f.loc())
@@ -975,6 +1001,35 @@ def _argument_purity(ck: Checker, prog: Program):
             ck.violation("C07.R4", func, text, f"{f.qualname} modifies its argument `{pname}`: {describe_effect(es[0])} - the next reader tried by read_single "
                          f"(and the caller) see the changed object", loc=es[0].chain[0].loc, path=chain_text(es[0]))
     ck.floor("C07.R4", n, 8, "readers checked for argument purity")
+
+
+def _one_trace_per_file(ck: Checker, prog: Program):
+    """The three-file miniSEED branch takes `stream[0]` of every file: a file is accepted only when it holds exactly one trace -
+    a second trace (a gap, another component) would be dropped silently.  Decided on the decision table of the per-file loop."""
+    from ..pathtable import PathTable, literals, same_rel
+    f = prog.func("data_wrangler._read_mseed")
+    loops = [x for x in own_nodes(f.node) if isinstance(x, ast.For) and any(True for _ in calls_in(x, "_quiet_obspy_read"))]
+    if len(loops) != 1:
+        raise AnalysisError(f"{f.qualname}: the per-file loop is not recognised")
+    lp = loops[0]
+    env = {n.id: sp.Symbol("<file>", real=True) for n in ast.walk(lp.target) if isinstance(n, ast.Name)}
+
+    def hook(call, T):
+        if call_name(call) == "_quiet_obspy_read":
+            return sp.Symbol("<stream>", real=True)
+        return None
+    leaves = PathTable(prog, f.module, env=env, call_hook=hook, structured=True).leaves(lp.body)
+    ONE = sp.Eq(sp.Function("len")(sp.Symbol("<stream>", real=True)), 1, evaluate=False)
+    keep = [l for l in leaves if l.exit != "raise"]
+    if not keep:
+        raise AnalysisError(f"{f.qualname}: no accepting path through the per-file loop")
+    bad = [l for l in keep if not any(same_rel(x, ONE) for x in literals(l))]
+    if not bad:
+        ck.ok("C07.R2", f.qualname, "a component file is accepted only with exactly one trace", detail=f"{len(keep)} accepting path(s)")
+    else:
+        ck.violation("C07.R2", f.qualname, "traces per file",
+                     f"a component file is accepted under {[str(x) for x in literals(bad[0])] or 'no condition'}, not only when it holds exactly one trace: "
+                     f"further traces of the file (after a gap, or of another component) are silently dropped", loc=f.loc(lp))
 
 
 def _per_file_state(ck: Checker, prog: Program):
@@ -1361,6 +1416,15 @@ def _regex_witnesses(ck: Checker, prog: Program, pats):
             any(isinstance(x, ast.Attribute) and x.attr in ("MULTILINE", "M") for a in sym[1].args[1:] for x in ast.walk(a))
         got = rxmatch.finditer(rxmatch.parse(pats[name], ml), text, ml)
         n += 1
+        # the same lines with the other line ending (text handed over as a stream keeps its \r\n): the same fields
+        import re as _re
+        crlf = _re.sub(r"(?<!\r)\n", "\r\n", text)
+        got_crlf = rxmatch.finditer(rxmatch.parse(pats[name], ml), crlf, ml)
+        if got == want and got_crlf != want:
+            ck.violation("C07.R6", "regex", f"{name}: fields of the witness lines (CRLF)",
+                         f"pattern {name} = {pats[name]!r} reads {got_crlf} from the witness text with \\r\\n line endings; the format requires {want} "
+                         f"(a header field of a file with Windows line endings is lost)", loc="hvsrpy/regex.py")
+            continue
         if got == want:
             ck.ok("C07.R6", "regex", f"{name}: fields of the witness lines", detail=f"{len(want)} match(es): {want[0]} ...")
         else:
